@@ -65,6 +65,7 @@ THEOREMS = [
         "chain_order_irrelevant chain_circular_refused chain_dup_unequal_refused chain_resolved "
         "build_coords_resolves_iff build_coords_unresolved_error build_coords_levels_are_depths "
         "build_coords_order_is_topological build_coords_independent_of_card_order build_coords_duplicates "
+        "build_coords_dup_error_cid "
         "formrbe3_is_rbe3Grid_on_sorted_lists formrbe3_sorted_is_perm formrbe3_row_order formrbe3_group_order "
         "formrbe3_um_order formrbe3_weights_scale_invariant formrbe3_rigid_body_exact "
         "cyl_roundtrip_everywhere sph_roundtrip_everywhere cyl_axis_convention sph_axis_convention "
@@ -141,7 +142,9 @@ MANIFEST = {
     "every reference chain ends in 0 (positive ids), otherwise the named error (the 'Could not resolve' message "
     "carries the ids of the deepest level that did resolve); the level of a card is the length of its reference "
     "chain; every card is handed to mkusetcoordinfo after the card of its reference system for any ids and depth; "
-    "the result depends only on the set of cards (order, equal duplicates); formrbe3's list packaging (expanddof on "
+    "the result depends only on the set of cards (equal duplicates) and, for every input including the refused ones, "
+    "not on their order (an unequal duplicate is reported with the smallest id that two different cards share); "
+    "formrbe3's list packaging (expanddof on "
     "Ind_List / UM_List / DOF_dep, look-up of uset rows, DOF outside the table dropped, sort into uset order, "
     "partition of the table): without UM_List the result is rbe3Grid on the strictly row-sorted permutation of the "
     "named independent DOF with rows in DOF_dep digit order; the result does not depend on the order in which "
